@@ -81,6 +81,10 @@ def check(ctx: Ctx) -> None:
     r1_fresh_names(ctx, "C10.R19")
     mtime_is_untruncated(ctx)
     writer_names_in_reader_language(ctx)
+    # version 0 is a version: a pointer naming v0 must be honoured, not taken for "no pointer" (truth-testing the number sends
+    # the reader to the directory scan, which surfaces the highest file on disk - possibly one that was never committed)
+    from .common import numbers_not_truth_tested
+    numbers_not_truth_tested(ctx, "C10.R22", ("metadata_manager",), "version numbers, stamps")
 
 
 def _fold_digits(ctx: Ctx, f: FunctionInfo, e: ast.AST, at: int, depth: int = 0) -> Optional[str]:
@@ -228,6 +232,15 @@ def r1(ctx: Ctx) -> None:
             ok = False
             why = ""
             folded = _fold_digits(ctx, f, name, at.id)
+            if folded is None:
+                # scenario: every variable known to be all digits here holds "7" - the name is then evaluated through format
+                # strings, named pieces and small spelling helpers (nothing is run)
+                from .common import concrete_eval, UNKNOWN
+                digits = {e.func.value.id for pol, e, _fa in facts_at(ctx, f, at) if pol == "true" and isinstance(e, ast.Call)
+                          and isinstance(e.func, ast.Attribute) and e.func.attr in ("isdigit", "isdecimal") and isinstance(e.func.value, ast.Name)}
+                if digits:
+                    v_ = concrete_eval(ctx, f, name, {d_: "7" for d_ in digits}, at.id)
+                    folded = v_ if isinstance(v_, str) and v_ is not UNKNOWN else None
             if folded is not None:
                 ok = re.match(pat, folded) is not None
                 why = f"legacy digits -> {folded!r} matches the regex"
@@ -380,7 +393,7 @@ def r5(ctx: Ctx) -> None:
 
 def r11(ctx: Ctx, rid: str = "C10.R11") -> None:
     ctx.rule(rid, "versions are ordered as integers: the version group captured by the metadata-file regex is used only as the "
-             "direct argument of int() (or in messages) - never stored, compared or max()-ed as text ('v9' > 'v10')", 2)
+             "direct argument of int() (or in messages) - never stored, compared or max()-ed as text ('v9' > 'v10')", 1)
     n_sites = 0
     for m in sorted((x for x in package_functions(ctx, ["metadata_manager"]) if x.parent is None), key=lambda x: x.qname):
         parents = {}
@@ -421,7 +434,7 @@ def r11(ctx: Ctx, rid: str = "C10.R11") -> None:
                        f"`{norm_text(x)}`" + (f" via `{alias}`" if alias else "") + ": a version kept as text orders lexicographically "
                        "- recovery then resolves a table with >= 10 versions to v9 and the next commit forks history",
                        text=norm_text(x), line=x.lineno)
-    if n_sites < 2:
+    if n_sites < 1:  # (one shared helper `_metadata_file_version(name)` is a legitimate single site)
         raise AnalysisError(f"only {n_sites} uses of the metadata-file regex's version group found")
     # ... and nothing TEXTUAL decides which candidate is the latest: no `<` / `>` / max / min / sorted over file names, regex
     # groups or tuples that start with one ('v9-...' > 'v10-...')
@@ -465,6 +478,22 @@ def r11(ctx: Ctx, rid: str = "C10.R11") -> None:
                     if d == g.entry:
                         continue
                     if dn.kind == "loop" and isinstance(dn.ast, ast.For):
+                        tg, it = dn.ast.target, dn.ast.iter
+                        if isinstance(tg, (ast.Tuple, ast.List)) and isinstance(it, ast.Name):
+                            # `for version, name in candidates:` over a local list of tuples built in this function: the
+                            # element's kind is the kind of what was appended
+                            idx = next((i for i, t in enumerate(tg.elts) if isinstance(t, ast.Name) and t.id == e.id), None)
+                            rows = [x.args[0] for x in ast.walk(m.node) if isinstance(x, ast.Call) and isinstance(x.func, ast.Attribute)
+                                    and x.func.attr == "append" and isinstance(x.func.value, ast.Name) and x.func.value.id == it.id
+                                    and len(x.args) == 1]
+                            rows += [x.value.elt for x in ast.walk(m.node) if isinstance(x, ast.Assign) and len(x.targets) == 1
+                                     and isinstance(x.targets[0], ast.Name) and x.targets[0].id == it.id
+                                     and isinstance(x.value, (ast.ListComp, ast.GeneratorExp))]
+                            hosts = {id(x): nn.id for nn in g.nodes if nn.ast is not None and nn.kind in ("stmt", "call") for x in ast.walk(nn.ast)}
+                            if idx is not None and rows and all(isinstance(r_, ast.Tuple) and len(r_.elts) == len(tg.elts) for r_ in rows):
+                                if any(is_text(r_.elts[idx], hosts.get(id(r_), at), depth + 1) for r_ in rows):
+                                    return True
+                                continue
                         return True  # an element of the listing
                     if isinstance(dn.ast, ast.Assign) and len(dn.ast.targets) == 1 and isinstance(dn.ast.targets[0], ast.Name) \
                             and is_text(dn.ast.value, d, depth + 1):
